@@ -7,6 +7,7 @@ command/sql/processor.go by the C14 correspondence run. Helper lemmas:
 RqModel/Lemmas/Rewrite.lean.
 -/
 import RqModel.Lemmas.Rewrite
+import RqModel.Lemmas.RewriteAllowed
 namespace C14
 open RqModel.Rewrite
 
@@ -220,6 +221,17 @@ example :
     clean false stmt = false ∧ clean false (rewrite c stmt).1 = true ∧ (rewrite c stmt).2.modified = true := by
   decide
 
+/-! ### nothing else changes -/
+
+/-- The rewritten statement differs from the original ONLY by the replacements the property asks
+for: random() / randomblob(literal) outside ORDER BY replaced by a literal (a blob of exactly the
+requested number of bytes), `now` in a time-value position replaced by the pinned instant, the
+pinned instant supplied where the time value was absent. Every other node, name, operator, literal
+and the order and number of children are untouched; nothing inside ORDER BY terms loses its
+random() calls. For every statement tree, flag setting, clock value and random source. -/
+theorem only_allowed_changes (c : Cfg) (n : Node) : allowed c false n (rewrite c n).1 = true :=
+  walk_allowed c n {} false (by decide)
+
 /-! ### statements without such calls are replicated unchanged -/
 
 theorem visitCall_other (c : Cfg) (st : St) (name : String) (args : Nodes)
@@ -294,6 +306,29 @@ theorem identity_without_calls (c : Cfg) (n : Node) (h : noTarget n = true) :
   intro text fp render
   unfold processOut
   cases fp <;> simp [rewrite, h2]
+
+/-- `Process` for a statement TEXT holding several statements (all of which the driver executes):
+every statement is rewritten and kept; the text is replaced only when one of them changed. -/
+def processOutMulti (c : Cfg) (text : String) (parsed : List Node) (render : Node → String) : String :=
+  if parsed.any (fun n => (rewrite c n).2.modified) then
+    "; ".intercalate (parsed.map fun n => render (rewrite c n).1)
+  else text
+
+/-- a multi-statement text none of whose statements calls any of the nine functions is replicated
+byte for byte; otherwise every one of its statements is kept (as many rendered statements as parsed
+ones) and each is free of non-deterministic calls -/
+theorem multi_statement_text (c : Cfg) (text : String) (parsed : List Node) (render : Node → String) :
+    ((∀ n ∈ parsed, noTarget n = true) → processOutMulti c text parsed render = text) ∧
+    ((parsed.map fun n => (rewrite c n).1).length = parsed.length) ∧
+    (c.rwRand = true → c.rwTime = true → ∀ n ∈ parsed, clean false (rewrite c n).1 = true) := by
+  refine ⟨fun h => ?_, by simp, fun hr ht n _ => no_nondet_left c hr ht n⟩
+  unfold processOutMulti
+  have : parsed.any (fun n => (rewrite c n).2.modified) = false := by
+    rw [List.any_eq_false]
+    intro n hn
+    have := (identity_without_calls c n (h n hn)).2.1
+    simp [this]
+  simp [this]
 
 /-- and a statement the parser rejects is passed through unchanged (by design) -/
 theorem unparsable_unchanged (c : Cfg) (text : String) (fp : Bool) (render : Node → String) :
